@@ -138,6 +138,13 @@ def concretise(d):
         return [concretise(i) for i in d["items"]]
     if d["t"] == "num":
         return float(Fraction(d["v"]))
+    if d["t"] == "teacher":
+        rpy()
+        from reservoirpy.nodes import Identity
+        t = Identity(name=uname("teacher"))
+        if d["dim"] is not None:
+            t.run(np.full((2, d["dim"]), 0.5))        # initialised: its output dimension is known
+        return t
     if d["v"] == "dict":
         return {"a": 1.0}
     return "abc"
@@ -150,6 +157,8 @@ def coq_data(d):
         return "(DList %s)" % coqlist([coq_data(i) for i in d["items"]])
     if d["t"] == "num":
         return "DNum"
+    if d["t"] == "teacher":
+        return "(DTeacher %s)" % ("None" if d["dim"] is None else "(Some %s)" % nat(d["dim"]))
     return "DOther"
 
 
@@ -203,6 +212,7 @@ def snapshot(node):
             "ind": None if ind is None else ([int(i) for i in ind] if hasattr(ind, "__iter__") else [int(ind)]),
             "outd": None if outd is None else (int(outd) if not hasattr(outd, "__iter__") else [int(i) for i in outd]),
             "state": None if s is None else [int(i) for i in np.shape(s)],
+            "teacher": getattr(node, "_teacher", None) is not None,
             "ph": hp.hexdigest()[:16], "sh": hs.hexdigest()[:16]}
 
 
@@ -257,14 +267,14 @@ def run_impl(c):
 def coq_obs(rec):
     a = rec["after"]
     outd = a["outd"]
-    return "(mkObs %s %s %s %s %s %s %s %s)" % (
+    return "(mkObs %s %s %s %s %s %s %s %s %s)" % (
         "None" if rec["exc"] is None else "(Some %s)" % rec["exc"], nat(rec["phase"]),
         "None" if rec["out"] is None else "(Some %s)" % coqlist([nat(i) for i in rec["out"]]),
         coqbool(a["init"]),
         "None" if a["ind"] is None else "(Some %s)" % coqlist([nat(i) for i in a["ind"]]),
         "None" if outd is None else "(Some %s)" % (nat(outd) if isinstance(outd, int) else nat(0)),
         "None" if a["state"] is None else "(Some %s)" % coqlist([nat(i) for i in a["state"]]),
-        coqbool(rec["same"]))
+        coqbool(rec["same"]), coqbool(a["teacher"]))
 
 
 def coq_fresh(nd):
@@ -432,6 +442,14 @@ def gen_case(rng, i):
                     o["y"] = bad_data(rng, m, T, for_y=True)
                 elif rng.random() < 0.06:
                     o["y"] = None
+                q = rng.random()
+                if cls in ONLINE and op == "train" and q < 0.3:
+                    # a target given as a teacher node: matching / mismatching / never initialised
+                    o["y"] = {"t": "teacher", "dim": rng.choice([m, m, m, m + 1, m + 2 if m == 1 else m - 1, None])}
+                elif q < 0.04:
+                    o["y"] = {"t": "teacher", "dim": rng.choice([m, m + 1, None])}
+        if rng.random() < 0.02:
+            o["x"] = {"t": "teacher", "dim": rng.choice([d, None])}
         ops.append(o)
     nd.pop("_parts", None)
     return {"node": nd, "ops": ops}
@@ -578,7 +596,7 @@ def run_link(lc):
     def fr(dim, init):
         if not init:
             return "(fresh KSame None None)"
-        return "(mkNode KSame true (Some [%s]) (Some %s) (Some [%s; %s]) 1 1 false false)" % (nat(dim), nat(dim), nat(1), nat(dim))
+        return "(mkNode KSame true (Some [%s]) (Some %s) (Some [%s; %s]) 1 1 false None false)" % (nat(dim), nat(dim), nat(1), nat(dim))
     term = "chk_links %s %s %s" % (coqlist([fr(*x) for x in lc["left"]["nodes"]]), coqlist([fr(*x) for x in lc["right"]["nodes"]]),
                                    coqbool(raised))
     return term, {"link": lc, "raised": raised, "untouched": before == after, "operand_is_initialized": model_flags}
@@ -636,6 +654,15 @@ def reject_reasons(nd, o, before):
         rs.append(("unsupported-op", op))
     if rs:
         return rs
+    if o["x"]["t"] == "teacher":
+        return [("non-array", "x:node")]                     # a node is never an input
+    y = o.get("y")
+    if y is not None and y["t"] == "teacher" and cls != "IPReservoir":
+        if cls not in ONLINE:
+            return [("non-array", "y:node")]                 # only online-trained nodes can take a teacher node
+        if y["dim"] is not None and isinstance(before["outd"], int) and y["dim"] != before["outd"]:
+            return [("wrong-feature-count", "y:teacher")]
+        o = dict(o, y=None)                                  # an acceptable teacher: only x is left to judge
     streams = [("x", o["x"], before["ind"])]
     if o.get("y") is not None and cls != "IPReservoir":       # IPReservoir is unsupervised: its targets are ignored by design
         streams.append(("y", o["y"], None if before["outd"] is None or not isinstance(before["outd"], int) else [before["outd"]]))
@@ -697,6 +724,8 @@ def wellformed_rows(nd, o):
         return None
     if op == "train":
         y = o.get("y")
+        if y is not None and y["t"] == "teacher":
+            return T if y["dim"] is not None else None
         if y is None or y["t"] != "arr" or len(y["shape"]) != 2 or y["shape"][0] != T:
             return None
     return T
@@ -730,6 +759,20 @@ def _judge(c):
                 out.append(_viol("dims-changed:%s" % short(nd["cls"]), "%s changed %s from %s to %s" % (desc, f, b[f], a[f]), c, k, b[f], a[f]))
         if b["init"] and not a["init"]:
             out.append(_viol("dims-changed:uninitialised", "%s un-initialised the node" % desc, c, k))
+        # (vi) no operation — accepted or rejected — leaves a teacher registered on the node; and a valid train with
+        #      array targets is never refused because of what an earlier rejected call left behind
+        if a["teacher"] and not b["teacher"]:
+            rs0 = reject_reasons(nd, o, b)
+            key = "late-rejection:teacher-stays-registered"
+            if rs0 and rs0[0][1] == "y:teacher":
+                key = "late-rejection:wrong-feature-count:teacher"      # a teacher that had to be rejected was registered first
+            out.append(_viol(key,
+                             "%s %s and leaves the teacher node registered on the node (node._teacher is not None): later train calls "
+                             "ignore their Y array" % (desc, "raises %s" % r["msg"] if r["exc"] else "is accepted"), c, k,
+                             "node._teacher is None", {"exc": r["msg"], "after": a}))
+            continue
+        if b["teacher"] and r["exc"] is not None and o["op"] == "train" and not reject_reasons(nd, o, b):
+            continue          # consequence of the registration reported above (the stale teacher is used instead of Y)
         # (ii) clean rejection
         rs = reject_reasons(nd, o, b)
         if rs:
@@ -756,6 +799,9 @@ def _judge(c):
         if taint is None and r["phase"] >= 2 and o["op"] in ("call", "run", "train") and wellformed_rows(nd, o) is None \
                 and o["x"]["t"] == "arr" and len(o["x"]["shape"]) >= 3:
             taint = irregular_key(nd, o)
+        if r["exc"] is not None and valid_train(nd, o, b) and taint is None:
+            out.append(_viol("rejected:valid-train:%s" % short(nd["cls"]), "%s is a valid training call but raises %s" % (desc, r["msg"]),
+                             c, k, "accepted", r["msg"]))
         # (iii) accepted well-formed input of T steps -> T rows of width output_dim (a 1-D output that goes with a 1-D
         #       state is the same defect and is reported once, under the state key below)
         T = wellformed_rows(nd, o)
@@ -780,6 +826,18 @@ def _judge(c):
     return out
 
 
+def valid_train(nd, o, b):
+    """A train call that is well-formed in every respect for an online node with the dims it has (or none yet)."""
+    x, y = o["x"], o.get("y")
+    if nd["cls"] not in ONLINE or o["op"] != "train" or y is None or x["t"] != "arr" or y["t"] != "arr":
+        return False
+    if x["dtype"] not in "fi" or y["dtype"] not in "fi" or len(x["shape"]) != 2 or len(y["shape"]) != 2:
+        return False
+    if x["shape"][0] != y["shape"][0] or 0 in x["shape"] or 0 in y["shape"]:
+        return False
+    return (b["ind"] is None or b["ind"] == [x["shape"][1]]) and (b["outd"] is None or b["outd"] == y["shape"][1])
+
+
 def irregular_key(nd, o):
     x = o["x"]
     if x["t"] == "arr" and len(x["shape"]) >= 3:
@@ -798,6 +856,8 @@ def _brief(d):
         return "%s%s" % ({"f": "float", "i": "int", "o": "object", "s": "str", "b": "bool"}[d["dtype"]], tuple(d["shape"]))
     if d["t"] == "list":
         return "[" + ", ".join(_brief(i) for i in d["items"]) + "]"
+    if d["t"] == "teacher":
+        return "teacher-node(out=%s)" % d["dim"]
     return "number" if d["t"] == "num" else d["v"]
 
 
@@ -847,6 +907,17 @@ def directed_cases():
                                                    {"op": "run", "x": {"t": "list", "items": [arr([4, 3], "f", 25), arr([5, 2], "f", 26)]}},
                                                    {"op": "call", "x": {"t": "list", "items": [arr([3], "f", 27), arr([2], "f", 28)]}}]})
     cs.append({"node": {"cls": "Concat"}, "ops": [{"op": "call", "x": {"t": "list", "items": [arr([2, 3], "f", 23), arr([2, 2], "f", 24)]}}]})
+    # targets given as a teacher node to an online readout: matching, mismatching (must leave no trace: the following valid
+    # train must be accepted), never-initialised teacher
+    for cls in ("RLS", "FORCE", "LMS"):
+        tr = {"op": "train", "x": arr([4, 3], "f", 30), "y": arr([4, 2], "f", 31)}
+        for dim in (2, 3, None):
+            cs.append({"node": {"cls": cls}, "ops": [tr, {"op": "train", "x": arr([2, 3], "f", 32), "y": {"t": "teacher", "dim": dim}},
+                                                      dict(tr, x=arr([4, 3], "f", 33)), {"op": "run", "x": arr([3, 3], "f", 34)}]})
+        cs.append({"node": {"cls": cls, "outd": 2}, "ops": [{"op": "train", "x": arr([2, 3], "f", 32), "y": {"t": "teacher", "dim": 3}}, tr]})
+        cs.append({"node": {"cls": cls}, "ops": [{"op": "train", "x": arr([2, 3], "f", 32), "y": {"t": "teacher", "dim": 2}}, tr]})
+    cs.append({"node": {"cls": "Ridge"}, "ops": [{"op": "fit", "x": arr([4, 3], "f", 30), "y": {"t": "teacher", "dim": 2}}]})
+    cs.append({"node": {"cls": "Identity"}, "ops": [{"op": "call", "x": {"t": "teacher", "dim": 3}}]})
     # the two open findings: 3-D array to call / run of an initialised node; ragged feature counts on an uninitialised node
     cs.append({"node": {"cls": "Identity"}, "ops": [{"op": "run", "x": arr([2, 3], "f", 12)}, {"op": "call", "x": arr([2, 1, 3], "f", 13)}]})
     cs.append({"node": {"cls": "Identity"}, "ops": [{"op": "run", "x": arr([2, 3], "f", 12)}, {"op": "run", "x": arr([4, 3, 3], "f", 13)}]})
@@ -898,6 +969,29 @@ def concat_exposure():
     return out
 
 
+def esn_probe():
+    """ESN (the optimised FrozenModel): after fit, and after run, its reservoir and readout hold single-row 2-D states."""
+    rpy()
+    from reservoirpy.nodes import ESN
+    out = []
+    rs = np.random.RandomState(3)
+    X, Y = rs.uniform(-1, 1, (12, 2)), rs.uniform(-1, 1, (12, 1))
+    for workers, seqs in ((1, False), (1, True)):
+        try:
+            esn = ESN(units=5, ridge=1e-3, workers=workers, name=uname("esn"), seed=1)
+            esn.fit([X, X[:8]] if seqs else X, [Y, Y[:8]] if seqs else Y)
+            sh = np.shape(esn.reservoir.state())
+            if sh != (1, 5):
+                out.append(("state-not-2d:esn-fit-reservoir", "after ESN.fit the reservoir state has shape %s, not (1, 5)" % (sh,)))
+            r = esn.run(X[:4])
+            shs = (np.shape(r), np.shape(esn.reservoir.state()), np.shape(esn.readout.state()))
+            if shs != ((4, 1), (1, 5), (1, 1)) and sh == (1, 5):      # (a 1-D state left by fit is reported once, above)
+                out.append(("state-not-2d:esn-run", "after ESN.run: output / reservoir state / readout state shapes %s" % (shs,)))
+        except Exception as e:  # noqa: BLE001
+            out.append(("esn:exception", "ESN fit/run raised %s: %s" % (type(e).__name__, str(e)[:100])))
+    return out
+
+
 def oracle(ctx, scale=1):
     rng = ctx.rng("oracle")
     cases = directed_cases() + [gen_case(rng, i) for i in range(ctx.n(300, 3000) * scale)]
@@ -917,7 +1011,11 @@ def oracle(ctx, scale=1):
         if key not in seen:
             seen.add(key)
             out.append({"key": key, "what": what, "scenario": {"concat_exposure": True}, "expected": None, "observed": what})
-    return {"evaluations": len(cases) + len(links) + 2, "violations": out,
+    for key, what in esn_probe():
+        if key not in seen:
+            seen.add(key)
+            out.append({"key": key, "what": what, "scenario": {"esn_probe": True}, "expected": None, "observed": what})
+    return {"evaluations": len(cases) + len(links) + 4, "violations": out,
             "rule": "on the real nodes, per operation: (i) dims never change once known; (ii) unsupported operations, non-array / non-numeric data, "
                     "lists where arrays are required and data whose feature size differs from the node's dims raise AND leave dims, state bytes and every "
                     "param bit-identical; (iii) accepted well-formed input of T steps returns (T, output_dim); (iv) state() is (1, output_dim) after any "
@@ -933,6 +1031,9 @@ def replay(payload):
         return {"violates": bool(v), "detail": v}
     if "link" in sc:
         v = judge_link(sc["link"])
+        return {"violates": bool(v), "detail": v}
+    if sc.get("esn_probe"):
+        v = [k for k, _ in esn_probe() if k == payload.get("key")]
         return {"violates": bool(v), "detail": v}
     vs = [v for v in _judge(sc) if payload.get("key") in (None, v["key"])]
     return {"violates": bool(vs), "detail": vs[:1]}
